@@ -161,18 +161,19 @@ class Extractor:
             rules.append('R4')
         body = new
         # R5 transparent cast
+        # (the name of the pointer local and of the codec parameter are free: a renamed local is the same idiom)
         pat = re.compile(
-            r'let\s+bs\s*:\s*\*const\s+Bs\s*=\s*ptr::from_ref::<Bs>\(')
+            r'let\s+(\w+)\s*:\s*\*const\s+Bs\s*=\s*ptr::from_ref::<Bs>\(')
         m = pat.search(body)
         if m:
             masked = mask_noncode(body)
             close = match_brace(masked, m.end() - 1)
             expr = body[m.end():close]
             rest = body[close + 1:]
-            m2 = re.match(r'\s*;\s*unsafe\s*\{\s*&\*\(bs\s+as\s+\*const\s+SeqSlice<A>\)\s*\}', rest)
+            m2 = re.match(r'\s*;\s*unsafe\s*\{\s*&\*\(' + re.escape(m.group(1)) + r'\s+as\s+\*const\s+SeqSlice<(\w+)>\)\s*\}', rest)
             if not m2:
                 raise Unsupported('R5: pointer cast idiom has an unexpected tail')
-            body = body[:m.start()] + 'SeqSlice::<A>::__from_bs(' + expr + ')' + rest[m2.end():]
+            body = body[:m.start()] + 'SeqSlice::<' + m2.group(1) + '>::__from_bs(' + expr + ')' + rest[m2.end():]
             rules.append('R5')
         if re.search(r'\*const\b|\*mut\b|transmute', body):
             raise Unsupported('raw pointer / transmute outside the R5 idiom')
@@ -317,12 +318,46 @@ class Extractor:
             rules.append('rename')
 
         # --- ghost splices (R3)
+        # metavariables: `$x` in an anchor matches any identifier and binds it; `$x` in the spliced ghost text is replaced
+        # by that identifier, so a renamed local does not lose the anchor (the repository text is never rewritten)
+        binds = {}
+
+        def anchor_rx(pat):
+            parts = []
+            for tok in re.findall(r'\$\w+|\w+|[^\w\s]', pat):
+                if tok.startswith('$'):
+                    nm = tok[1:]
+                    if nm in binds:
+                        parts.append(re.escape(binds[nm]))
+                    elif ('(?P<mv_%s>' % nm) in ''.join(parts):
+                        parts.append('(?P=mv_%s)' % nm)
+                    else:
+                        parts.append('(?P<mv_%s>\\w+)' % nm)
+                else:
+                    parts.append(re.escape(tok))
+            return re.compile(r'\s*'.join(parts))
+
+        def subst_mv(text):
+            def rp(m):
+                if m.group(1) not in binds:
+                    raise LostAnchor('%s: fn %s: metavariable $%s is not bound by any anchor' % (rel, kv['fn'], m.group(1)))
+                return binds[m.group(1)]
+            return re.sub(r'\$(\w+)', rp, text)
+
         for g in ghosts:
+            if g['kind'] == 'bind':
+                masked = mask_noncode(body)
+                ms = [m for m in anchor_rx(g['pat']).finditer(body) if masked[m.start()] == body[m.start()] or not body[m.start()].strip()]
+                if not ms:
+                    raise LostAnchor('%s: fn %s: bind anchor `%s` not found' % (rel, kv['fn'], g['pat']))
+                for k2, v2 in ms[0].groupdict().items():
+                    binds[k2[3:]] = v2
+                continue
             if g['modes'] and self.mode not in g['modes']:
                 continue
             text = '\n'.join(g['lines'])
-            for gl in g['lines']:
-                pass
+            if g['kind'] in ('start', 'end'):
+                text = subst_mv(text)
             if g['kind'] == 'start':
                 body = '{\n' + text + body[1:]
             elif g['kind'] == 'end':
@@ -331,12 +366,15 @@ class Extractor:
                 pat = g['pat']
                 masked = mask_noncode(body)
                 # match ignoring whitespace differences
-                rx = re.compile(r'\s*'.join(re.escape(tok) for tok in re.findall(r'\w+|[^\w\s]', pat)))
+                rx = anchor_rx(pat)
                 ms = list(rx.finditer(body))
                 ms = [m for m in ms if masked[m.start()] == body[m.start()] or not body[m.start()].strip()]
                 if not ms:
                     raise LostAnchor('%s: fn %s: ghost anchor `%s` not found' % (rel, kv['fn'], pat))
                 m = ms[int(g.get('nth', 0))]
+                for k2, v2 in m.groupdict().items():
+                    binds[k2[3:]] = v2
+                text = subst_mv(text)
                 if g['kind'] == 'before':
                     body = body[:m.start()] + text + '\n' + body[m.start():]
                 elif g['kind'] == 'after':
@@ -376,15 +414,41 @@ class Extractor:
             if body2 != body:
                 rules.append('R11(%s)' % cname)
             body = body2
+        if hdr:
+            # R11 (automatic form): `Self::NAME` where NAME is an associated const defined ONCE in an inherent impl of the same
+            # type, in the same file, is inlined - only when every single-letter generic the definition mentions is also a
+            # generic parameter of the using impl (rustc substitutes the impl's own parameters; textual inlining is the same
+            # thing exactly when the names coincide).  Lets `Self::BITS` be used where `K * A::BITS as usize` was written.
+            def impl_type(h):
+                hh = h.split(' for ')[-1] if ' for ' in h else re.sub(r'^impl\s*(<[^{]*?>)?\s*(?=[A-Za-z_&])', '', re.sub(r'^impl\s*<(?:[^<>]|<[^<>]*>)*>\s*', '', h))
+                mt = re.match(r'\s*&?\s*(?:\'\w+\s+)?(\w+)', hh)
+                return mt.group(1) if mt else None
+            tname = impl_type(hdr)
+            mg = re.match(r'impl\s*<((?:[^<>]|<[^<>]*>)*)>', hdr)
+            params = set(re.findall(r'(?:const\s+)?(\b[A-Z]\w*)\s*(?::|,|$)', mg.group(1))) if mg else set()
+            for cname in sorted(set(re.findall(r'\bSelf::([A-Z][A-Z0-9_]*)\b(?!\s*(?:\(|::|<))', mask_noncode(body)))):
+                defs = []
+                for h2 in src.impls():
+                    if ' for ' in h2[0] or impl_type(h2[0]) != tname:
+                        continue
+                    mm = re.search(r'(?m)^\s*(?:pub\s+)?const\s+' + re.escape(cname) + r'\s*:\s*[^=;]+=\s*([^;]+);', src.masked[h2[2]:h2[3]])
+                    if mm:
+                        defs.append(src.text[h2[2] + mm.start(1):h2[2] + mm.end(1)].strip())
+                if len(defs) == 1 and set(re.findall(r'\b([A-Z])\b', defs[0])) <= params:
+                    body = re.sub(r'\bSelf::' + re.escape(cname) + r'\b(?!\s*(?:\(|::|<))', '(' + defs[0] + ')', body)
+                    rules.append('R11(%s)' % cname)
         sig = r10_const_generic(sig, hdr, rules)
         body = r10_const_generic(body, hdr, rules)
         for a, b in kv.get('annotate', []):
             # R14: a type annotation is added to a `let` (rustc checks it against the inferred type, so it
             # cannot change the meaning); needed when a spliced invariant mentions the variable before
             # inference has fixed its type
-            if body.count(a) != 1:
-                raise LostAnchor('%s: fn %s: annotate anchor `%s` matches %d times' % (rel, kv['fn'], a, body.count(a)))
-            body = body.replace(a, b)
+            ms = list(anchor_rx(a).finditer(body))
+            if len(ms) != 1:
+                raise LostAnchor('%s: fn %s: annotate anchor `%s` matches %d times' % (rel, kv['fn'], a, len(ms)))
+            for k2, v2 in ms[0].groupdict().items():
+                binds[k2[3:]] = v2
+            body = body[:ms[0].start()] + subst_mv(b) + body[ms[0].end():]
             rules.append('R14')
         for a, b in kv.get('closure_contract', []):
             # R2 for closures: `|| BODY` -> `|| -> (e: T) ensures ... { BODY }`; the closure body must reappear verbatim
@@ -526,6 +590,13 @@ class Extractor:
                         if 'nth' in g:
                             cur['nth'] = g['nth']
                         ghosts.append(cur)
+                    elif t.startswith('//@bind '):
+                        # //@bind `stmt pattern with $x`: binds the metavariables to the identifiers the repository text uses
+                        # (renamed locals), for all following ghost splices of this function; inserts nothing
+                        mb = re.match(r'//@bind\s+`([^`]*)`', t)
+                        cur = dict(lines=[], modes=None, kind='bind', pat=mb.group(1))
+                        ghosts.append(cur)
+                        cur = None
                     elif t.startswith('//@@'):
                         kv.update(parse_kv(t))
                     elif t == '' or t.startswith('//'):
@@ -660,6 +731,8 @@ class Extractor:
     def check_ghost_only(self, g, item):
         """R3: a splice may contain only proof blocks / assert / invariant / decreases."""
         text = '\n'.join(g['lines']).strip()
+        if g['kind'] == 'bind':
+            return
         if g['kind'] == 'name_iter':
             if not re.match(r'^\w+$', text):
                 raise Exception('name_iter splice must be an identifier')
@@ -702,9 +775,30 @@ class Extractor:
             out.append(l)
             linemap.append((item, fnid))
 
-    def build_unit(self, roots):
+    def providers(self, fn_name, type_hint=None):
+        """items whose //@extract line puts the repository function `fn_name` under contract (dependency completion:
+        a refactored function may call a sibling that the item's hand-written deps= list did not foresee)"""
+        hits = []
+        for name in self.order:
+            for line in self.items[name]['lines']:
+                st = line.strip()
+                if not st.startswith('//@extract '):
+                    continue
+                kv = parse_kv(st)
+                if kv.get('rename', kv.get('fn')) != fn_name and kv.get('fn') != fn_name:
+                    continue
+                if kv.get('rename') and kv.get('rename') != fn_name:
+                    continue      # instantiations under another name do not answer a call by the plain name
+                hits.append((name, kv.get('rehome', kv.get('impl', ''))))
+        if type_hint:
+            typed = [n for n, impl in hits if re.search(r'(?:for\s+|>\s+|^impl\s+)&?' + re.escape(type_hint) + r'\b', impl)]
+            if typed:
+                return typed
+        return [n for n, _ in hits]
+
+    def build_unit(self, roots, extra=()):
         meta, linemap, out = [], [], []
-        names = self.closure(['header'] + list(roots) + ['footer'])
+        names = self.closure(['header'] + list(roots) + list(extra) + ['footer'])
         for n in names:
             self.expand_item(n, meta, linemap, out, is_root=(n in roots))
         return '\n'.join(out) + '\n', meta, linemap, names
